@@ -104,6 +104,20 @@ def run(ctx):
                 j_ = c15.pal_json(d)
                 d[ctx.rng.choice(common.AA)] = "white"
                 ev.append({"kind": "set_palette", "obj": k, "arg": j_, "accepted": out[0] == "ok", "post": post()})
+                if ctx.rng.random() < 0.5:
+                    # the caller edits the dictionary it has just submitted and submits the same object again (to this or the
+                    # other object): it is the contents at the time of the call that count
+                    how = ctx.rng.choice(["valid", "valid", "invalid", "missing"])
+                    a_ = ctx.rng.choice(common.AA)
+                    if how == "valid":
+                        d[a_] = ctx.rng.choice([c for c in objmodel.COLOURS if c != d.get(a_)])
+                    elif how == "invalid":
+                        d[a_] = ctx.rng.choice(["pink", "", "Red", 5])
+                    else:
+                        d.pop(a_, None)
+                    k2 = ctx.rng.choice((1, 2))
+                    out = common.call(objs[k2].set_HTMLColorResiduePalette, d)
+                    ev.append({"kind": "set_palette", "obj": k2, "arg": c15.pal_json(d), "accepted": out[0] == "ok", "post": post()})
                 k = ctx.rng.choice((1, 2))
                 o = objs[k]
             html = common.call(o.get_HTMLColorString)
